@@ -70,13 +70,18 @@ def make_case(sid, flags, text, path=False, do_print=True, pre=()):
     return Case(lines)
 
 
+def reduced_alphabet(sch):
+    return [n.decode('latin-1') for n in sch.all_names()] + ['7', 't1', '=', '+=', '{', '}', '(', ')']
+
+
 def shard_e1(shard):
     sid, flags, path, N, prefixes, deadline = shard
     sch = FAM[sid]
     drv = get_driver('asan')
     drv.define_schema(sid, sch.spec())
     st = ShardStats('E1 N=%d' % N)
-    alpha = S.alphabet_for(sch)
+    alpha = reduced_alphabet(sch) if N >= 100 else S.alphabet_for(sch)
+    N = N % 100
     buf = []
 
     def flush():
@@ -192,7 +197,7 @@ def main():
     quick = ck.tier == 'quick'
     dl = ck.deadline
     CM = CFGF['COMMENTS']
-    for N in ([4, 5] if quick else [5, 6, 7]):
+    for N in ([4, 5, 6] if quick else [6, 7, 8]):
         shards = []
         for sid in USE:
             sch = FAM[sid]
@@ -203,6 +208,17 @@ def main():
                 for ch in engine.chunks(frontier, 4):
                     shards.append((sid, flags, path, N, ch, dl))
         engine.phase(ck, 'E1 N=%d (every viable prefix = a cut, every dead token = a corruption)' % N, shard_e1, shards, schemas=len(USE))
+    # reduced alphabet, deeper: repeated titles (instances replaced in place), re-opened sections, calls - with a search path set
+    for N in ([8, 10] if quick else [10, 12]):
+        shards = []
+        for sid in ['P1', 'F07', 'F08', 'F10', 'F16', 'F18', 'F13', 'F17']:
+            sch = FAM[sid]
+            alpha = reduced_alphabet(sch)
+            inner, frontier = trace.viable_prefixes(sch, 0, alpha, 3)
+            shards.append((sid, CM, True, 100, inner, dl))
+            for ch in engine.chunks(frontier, 2):
+                shards.append((sid, CM, True, 100 + N, ch, dl))
+        engine.phase(ck, 'E1 reduced alphabet N=%d, search path and annotations on' % N, shard_e1, shards, schemas=8)
     sch = FAM['I1']
     alpha = [w for w in S.alphabet_for(sch) if w not in ('include', '(', ')')]
     for N in ([3, 4] if quick else [4, 5]):
